@@ -658,18 +658,31 @@ class Hugr(Mapping[Node, NodeData], Generic[OpVarCov]):
         """
         mapping: dict[Node, Node] = {}
 
-        for node, node_data in hugr.nodes():
-            # relies on parents being inserted before any children
-            try:
+        for node in hugr:
+            # insert the not yet inserted ancestors first, outermost first, so
+            # that a parent is always inserted before its children even when
+            # index reuse put a child at a lower index than its parent
+            chain: list[Node] = []
+            cur: Node | None = node
+            while cur is not None and cur not in mapping:
+                if len(chain) >= len(hugr):
+                    # the parent pointers of the inserted HUGR form a cycle
+                    raise ParentBeforeChild
+                chain.append(cur)
+                cur = hugr[cur].parent
+            for new in reversed(chain):
+                node_data = hugr[new]
                 node_parent = mapping[node_data.parent] if node_data.parent else parent
-            except KeyError as e:
-                raise ParentBeforeChild from e
-            mapping[node] = self.add_node(
-                node_data.op,
-                node_parent,
-                num_outs=node_data._num_outs,
-                metadata=node_data.metadata,
-            )
+                mapping[new] = self.add_node(
+                    node_data.op,
+                    node_parent,
+                    num_outs=node_data._num_outs,
+                    metadata=node_data.metadata,
+                )
+
+        # the insertion order above need not be the child order: copy it
+        for node, node_data in hugr.nodes():
+            self[mapping[node]].children = [mapping[ch] for ch in node_data.children]
 
         for src, dst in hugr._links.items():
             self.add_link(
